@@ -4,6 +4,7 @@ import NA.Proofs.VpnEngine
 import NA.Proofs.VpnConverge
 import NA.Proofs.VpnUnordered
 import NA.Model.CryptoMapDev
+import NA.Props.VpnGraph
 /-!
 # Crypto maps of the ASA backend: what `matchCryptoMap`, `makeEqual` and the reuse of simple objects guarantee
 
@@ -264,6 +265,9 @@ def obligations : List Lean.Name := [
   ``crypto_seq_fresh, ``crypto_seq_fresh_applies, ``crypto_match_by_peer, ``crypto_device_entries_once,
   ``crypto_target_entries_once, ``crypto_nothing_added_partial, ``crypto_commands_address_device_seq,
   ``crypto_equal_line_exists, ``diffUnordered_is_set_diff, ``simple_object_reuse_sound, ``crypto_idempotent_counterexample,
-  ``crypto_duplicate_peer_counterexample]
+  ``crypto_duplicate_peer_counterexample,
+  -- named object graphs (NA/Props/VpnGraph.lean)
+  ``NA.Vpn.G.graph_cleanup_accepted, ``NA.Vpn.G.graph_refs_created_first, ``NA.Vpn.G.graph_exec_frame, ``NA.Vpn.G.graph_body_targets,
+  ``NA.Vpn.G.graph_unmanaged_untouched, ``NA.Vpn.G.graph_untagged_not_pending, ``NA.Vpn.G.graph_chain_protected]
 
 end NA.Vpn
